@@ -27,6 +27,19 @@ func main() {
 			"paths:\n  p:\n    overridePublisher: yes\n", 0,
 			[]pmlib.PubSpec{{ID: "A", Writes: 1, Stay: true, Pre: true}, {ID: "B", Writes: 1, Linger: true}}, []pmlib.RdrSpec{{ID: "R1", Pre: true}, {ID: "R2", Twice: true}}, 2, 3),
 	}
+	// readers held for an on-demand publisher are attached all at once when it arrives: the limit still holds
+	odConf := pmlib.LoadConf("paths:\n  p:\n    maxReaders: 1\n    runOnDemand: vcmd demand\n    runOnDemandStartTimeout: 10s\n    runOnDemandCloseAfter: 10s\n")
+	scn = append(scn, &vexplore.Scenario{
+		Name: "max1-held-readers", Desc: "maxReaders 1, on-demand publisher: R1, R3, R4 request while the publisher is not there yet, then it arrives",
+		Body: pmlib.DemandBody(odConf, pmlib.DemandSpec{Source: true, MoreReaders: 2}), Invariant: pmlib.MaxReadersInvariant,
+		Check: pmlib.CheckReaders(1), QuickBound: 1, ThoroughBound: 2, Horizon: 20000, Bg: bg,
+	})
+	always := "paths:\n  p:\n    alwaysAvailable: yes\n    alwaysAvailableTracks:\n    - codec: G711\n      sampleRate: 8000\n      channelCount: 1\n      muLaw: false\n"
+	scn = append(scn, &vexplore.Scenario{
+		Name: "always-available-recreated", Desc: "offline always-available path with a reader attached is recreated by a reload (maxReaders changes): the reader is closed",
+		Body: pmlib.AlwaysTeardownBody(pmlib.LoadConf(always), pmlib.LoadConf(always+"    maxReaders: 5\n")), Invariant: pmlib.MaxReadersInvariant,
+		Check: pmlib.CheckAlwaysTeardown, QuickBound: 1, ThoroughBound: 2, Horizon: 20000, Bg: []string{"dumper.go", "stream/offline_sub_stream_track.go"},
+	})
 	vexplore.Main("C18", scn, []string{
 		"fake reader/publisher sessions drive the real pathManager API",
 		"the maxReaders bound is an invariant evaluated after every scheduler step on a snapshot of path.readers",
